@@ -349,3 +349,14 @@ Definition sizes_le (n : nat) : list (nat * nat) :=
   flat_map (fun h => map (fun w => (h, w)) (seq 0 (S n))) (seq 0 (S n)).
 Definition check_all_le (n : nat) : bool :=
   forallb (fun hw => check_size (fst hw) (snd hw)) (sizes_le n).
+
+(* the h+1 x w masks whose first row is taken from [rs]; all_masks (S h) w is
+   masks_with_first (all_rows w) h w by definition.  Used to split the 4x4 sweep into
+   independently checked quarters. *)
+Definition masks_with_first (rs : list (list bool)) (h w : nat) : list mask :=
+  flat_map (fun m => map (fun r => r :: m) rs) (all_masks h w).
+Definition rows4_chunk (i : nat) : list (list bool) := firstn 4 (skipn (4 * i) (all_rows 4)).
+Definition check_44_chunk (i : nat) : bool := forallb check_mask (masks_with_first (rows4_chunk i) 3 4).
+Definition is_44 (hw : nat * nat) : bool := Nat.eqb (fst hw) 4 && Nat.eqb (snd hw) 4.
+Definition check_small_sizes : bool :=
+  forallb (fun hw => check_size (fst hw) (snd hw)) (filter (fun hw => negb (is_44 hw)) (sizes_le 4)).
